@@ -224,3 +224,64 @@ def c01_mixed_cond(ctx, n_keys=4000):
         ctx.property_failure(None, f"mixed-shape Cond law check raised {type(ex).__name__}: {str(ex)[:160]}", case)
     ctx.case(sample=case, nontrivial_key=("mixed-cond",))
     ctx.count("law:mixed-cond")
+
+
+def cond_mixed_support(ctx, prop):
+    """A Cond whose branches put DIFFERENT SUPPORTS on a shared address (uniform(0,1) vs normal(0,2)): a value outside the hidden
+    branch's support gives that branch density -inf (score +inf).  Only the taken branch may enter weights: every weight must stay
+    the finite density (ratio) of the visible choices.  (Real distributions: the probe densities of the model-based runs are never -inf.)
+    Flips INTO the branch for which the value is impossible are not exercised (the weight is legitimately -inf / undefined there)."""
+    import jax.numpy as jnp
+    import jax.random as jr
+    from scipy import stats
+    G = impl.load()
+    normal, uniform = G.normal, G.uniform
+
+    @G.gen
+    def model(flag, m):
+        v = G.Cond(uniform, normal)(flag, 0.0, 1.0 + m * 0.0) @ "v"          # True: uniform(0, 1); False: normal(0, 1)
+        y = normal(v + m, 0.5) @ "y"
+        return v + y
+
+    def lp(v, y, m):      # joint log density with the False (normal) branch visible
+        return float(stats.norm(0.0, 1.0).logpdf(v) + stats.norm(v + m, 0.5).logpdf(y))
+
+    F, m0, m1 = jnp.array(False), jnp.float32(0.3), jnp.float32(-0.6)
+    case = {"kind": "cond-mixed-support", "property": prop}
+    try:
+        key = jr.key(ctx.seed + 91)
+        # generate with the Cond address constrained OUTSIDE the hidden (uniform) branch's support
+        tr, w = G.seed(model.generate)(key, {"v": jnp.float32(1.7), "y": jnp.float32(0.4)}, F, m0)
+        want = lp(1.7, 0.4, 0.3)
+        if not (abs(float(w) - want) <= 1e-3 * (1 + abs(want))):
+            ctx.property_failure(None, f"generate: v=1.7 is impossible only under the branch NOT taken, yet the weight is {float(w)} instead of log p = {want:.4f}", {**case, "op": "generate"})
+        if abs(float(tr.get_score()) + want) > 1e-3 * (1 + abs(want)):
+            ctx.property_failure(None, f"generate: trace score {float(tr.get_score())} != -log p = {-want:.4f}", {**case, "op": "generate"})
+        if prop in ("C03", "C05"):
+            t1, w1, _ = model.update(tr, {"y": jnp.float32(0.9)}, F, m1)
+            want1 = lp(1.7, 0.9, -0.6) - want
+            t2, w2, _ = model.update(t1, {"v": jnp.float32(2.2)}, F, m0)
+            want2 = lp(2.2, 0.9, 0.3) - lp(1.7, 0.9, -0.6)
+            for nm, got, wnt in (("first update", w1, want1), ("second update", w2, want2)):
+                if not (abs(float(got) - wnt) <= 1e-3 * (1 + abs(wnt))):
+                    ctx.property_failure(None, f"{nm} (condition unchanged, hidden branch impossible): weight {float(got)} != density ratio {wnt:.4f}", {**case, "op": nm})
+            if prop == "C05" and not (abs(float(w1) + float(w2) - (lp(2.2, 0.9, 0.3) - want)) <= 2e-3 * (1 + abs(want))):
+                ctx.property_failure(None, "update weights do not telescope on a mixed-support Cond", {**case, "op": "telescope"})
+        if prop in ("C04", "C05"):
+            from genjax import sel
+            for nm, s_, wnt in (("empty selection", sel(), 0.0), ("select all", sel("v") | sel("y"), 0.0)):
+                t3, w3, _ = G.seed(model.regenerate)(jr.key(ctx.seed + 92), tr, s_, F, m0)
+                if nm == "empty selection" and not (abs(float(w3) - wnt) <= 1e-4):
+                    ctx.property_failure(None, f"regenerate with the {nm} on a mixed-support Cond trace: weight {float(w3)} != 0", {**case, "op": nm})
+                if nm == "select all" and not np.isfinite(float(w3)):
+                    ctx.property_failure(None, f"regenerate ({nm}) on a mixed-support Cond trace: weight {float(w3)} is not finite", {**case, "op": nm})
+            t4, w4, _ = G.seed(model.regenerate)(jr.key(ctx.seed + 93), tr, sel("y"), F, m1)
+            y4 = float(t4.get_choices()["y"])
+            want4 = (lp(1.7, y4, -0.6) - want) - (float(stats.norm(1.7 - 0.6, 0.5).logpdf(y4)) - float(stats.norm(1.7 + 0.3, 0.5).logpdf(0.4)))
+            if not (abs(float(w4) - want4) <= 2e-3 * (1 + abs(want4))):
+                ctx.property_failure(None, f"regenerate(sel('y'), new args) on a mixed-support Cond trace: weight {float(w4)} != {want4:.4f}", {**case, "op": "regenerate-y"})
+    except Exception as ex:
+        impl.reset_handlers()
+        ctx.property_failure(None, f"mixed-support Cond ({prop}) raised {type(ex).__name__}: {str(ex)[:160]}", case)
+    ctx.case(sample=case, nontrivial_key=("cond-mixed-support", prop))
+    ctx.count("cond-mixed-support")
